@@ -286,6 +286,11 @@ def _is_op(cl, t, op):
     return path_ends(c.get("path", ""), op)
 
 
+def _chain_handles(cl):
+    """Names of the captured variables that hold the vector of chain handles (by type, not by name)."""
+    return {c["var"] for c in cl.captures if "sampler::ChainProcess<" in c.get("ty", "") and ("Vec<" in c["ty"] or "[" in c["ty"])}
+
+
 def r4(F, R, rid="C12-R4", commands=(("Pause", "send:Pause"), ("Continue", "send:Resume")), closure_adaptors=("for_each",)):
     R.rule(rid, "in the controller, the arm of each of %s performs the per-chain operation (%s) for every chain handle - a loop over `chains`, or a closure "
                 "given to %s on `chains.iter()` - before the acknowledging responses_tx.send" % ([c for c, _ in commands], [o for _, o in commands], list(closure_adaptors)))
@@ -317,7 +322,7 @@ def r4(F, R, rid="C12-R4", commands=(("Pause", "send:Pause"), ("Continue", "send
                 nm = strip_generics(c_.get("path", "")).split("::")[-1]
                 if bb in reach and nm in closure_adaptors and c_.get("closures") and strip_generics(c_.get("path", "")).startswith(("std::iter::Iterator::", "core::iter::Iterator::")):
                     rv_ = cl.value(t["args"][0]) if t["args"] else None
-                    over_chains = rv_ is not None and any(n[0] == "upvar" and "chains" in n[1] for n in vt_walk(rv_))
+                    over_chains = rv_ is not None and any(n[0] == "upvar" and n[1] in _chain_handles(cl) for n in vt_walk(rv_))
                     ity = cl.local_ty(K.root_local(cl, t["args"][0])) if t["args"] else ""
                     plain = ity.replace("&mut ", "").startswith(("std::slice::Iter<", "std::vec::IntoIter<", "std::slice::IterMut<"))
                     inner_ops = 0
@@ -342,7 +347,7 @@ def r4(F, R, rid="C12-R4", commands=(("Pause", "send:Pause"), ("Continue", "send
             for bb, t in cl.calls():
                 if bb in reach and strip_generics(t["callee"].get("path", "")).endswith(("slice::iter", "IntoIterator::into_iter", "Iterator::next")):
                     v = cl.value(t["args"][0]) if t["args"] else None
-                    if v and any(n[0] in ("upvar",) and "chains" in n[1] for n in vt_walk(v)):
+                    if v and any(n[0] in ("upvar",) and n[1] in _chain_handles(cl) for n in vt_walk(v)):
                         it_ok = True
         # no adaptor between `chains` and the loop: the iterator driving the loop is the plain slice / vec iterator
         plain = False
